@@ -43,6 +43,15 @@ def run(p):
         tol = 1e-9 * d + 4 * 2.3e-16 * m
         p.check(abs(e3 - e2) <= tol and abs(n3 - n2) <= tol, 'join-radiate-inverse', 'join_radiate', inp,
                 [e3, n3], [e2, n2], f'radiations({e1},{n1},*joins(...))')
+        # the same line joined the other way round (theorem joins_reverse): same distance, bearing turned by 180 — both follow from
+        # the inverse property at its own tolerance (each bearing is fixed to 1e-9 rad by the radiation closing), so 2e-7 degrees
+        ok, r2 = p.guarded('joins-raises', 'joins_reverse', inp, lambda: S.joins(e2, n2, e1, n1), f'joins({e2!r}, {n2!r}, {e1!r}, {n1!r})')
+        if ok:
+            d2, b2 = r2
+            diff = (b2 - b - 180.0) % 360.0
+            p.case('joins_reverse', inp, b < 180)
+            p.check(rel(d2, d, d) and min(diff, 360.0 - diff) <= 2e-7, 'join-radiate-inverse', 'joins_reverse', inp,
+                    [d2, b2], [d, (b + 180.0) % 360.0], f'joins({e2!r}, {n2!r}, {e1!r}, {n1!r}) against joins({e1!r}, {n1!r}, {e2!r}, {n2!r})')
     # negative zero as a coordinate difference (what round(-0.0002, 3) or -0.0 - 0.0 give): still a bearing in [0, 360) — due south is 180
     for (x_, y_, brg) in [(-0.0, -5.0, 180.0), (0.0, -5.0, 180.0), (-0.0, 5.0, 0.0), (-5.0, -0.0, 270.0), (5.0, -0.0, 90.0)]:
         import geodepy.convert as _CV
